@@ -67,6 +67,7 @@ type LowerCfg struct {
 	StubReorder  bool   `json:"stub_reorder,omitempty"`
 	StubUnique   bool   `json:"stub_unique,omitempty"`
 	StubSeed     uint64 `json:"stub_seed,omitempty"`
+	CapExtra     uint64 `json:"cap_extra,omitempty"` // added to the storage capacity of ideal / banked lowers
 }
 
 // RobCfg configures an optional reorder buffer in front of the hierarchy.
@@ -235,7 +236,7 @@ func BuildOn(reg modeling.Registrar, cfg *Config, w *World) *Asm {
 			s.StageLatency = cfg.Lower.StageLat
 			s.PostPipelineBufSize = cfg.Lower.PostBuf
 			s.BankSelectorLog2InterleaveSize = cfg.Lower.Log2IL
-			s.Capacity = LowerCapacity
+			s.Capacity = LowerCapacity + cfg.Lower.CapExtra
 			c := simplebankedmemory.MakeBuilder().WithRegistrar(a.Reg).WithSpec(s).Build(name)
 			a.Banked = append(a.Banked, c)
 			a.Stores = append(a.Stores, c.Resources().Storage)
@@ -265,7 +266,7 @@ func BuildOn(reg modeling.Registrar, cfg *Config, w *World) *Asm {
 			s.Freq = timing.Freq(cfg.Lower.FreqHz)
 			s.Latency = cfg.Lower.Latency
 			s.Width = cfg.Lower.Width
-			s.Capacity = LowerCapacity
+			s.Capacity = LowerCapacity + cfg.Lower.CapExtra
 			c := idealmemcontroller.MakeBuilder().WithRegistrar(a.Reg).WithSpec(s).Build(name)
 			a.Ideal = append(a.Ideal, c)
 			a.Stores = append(a.Stores, c.Resources().Storage)
